@@ -83,3 +83,11 @@ CHECKS["C39"] = dict(
         dict(pkg=MSC, run="^TestC39_TieFairness$", quick=150, thorough=8000),
     ],
 )
+SPL = "0chain.net/smartcontract/stakepool"
+CHECKS["C10"] = dict(
+    level="exploration", engine="E2",
+    technique="property-based testing with an exact big-integer oracle over generated stake pools and amounts (boundary-biased generators: 0, 2^53, supply, 2^64)",
+    level_text="The real DistributeRewards / DistributeRewardsRandN run on generated pools over a real state context; the sum of all reward increments is compared with the paid amount in exact arithmetic, each delegate's share with the exact proportional share within a stated float tolerance, and the kill / min-stake / N clauses directly.",
+    level_note="The oracle sums the pools' own Reward fields, not the emitted event. Calls that return an error are not judged (an error aborts the transaction; rollback is C02's subject).",
+    parts=[dict(pkg=SPL, run="^TestC10_DistributeRewards$", quick=20000, thorough=1600000, floor=200)],
+)
